@@ -6,6 +6,7 @@ package main
 // payload (fields separated by '|'):
 //   <protocol>|<op>|<otherOp or ->|<otherOp payload struct key or ->|<actions>
 // actions are separated by '/', fields of an action by '!'; variable values are '+'-joined hex ('.' = none):
+//   SE!<vars> / TE!<vars>            as S / T through Subscribe<op>Errorable (C08: every public entry point binds its arguments)
 //   S!<vars>                         Subscribe<op>(vars…, handler): ONE MORE subscription (index 0, 1, …) from the same
 //                                    emitted subscriber object / the same FScopeProvider; T!<vars> = Subscribe<otherOp>
 //   P!<vars>!<cid>!<hdrs>!<value>    Publish<op>(fctx, vars…, value)          fctx = NewFContext(cid) + user headers
@@ -238,14 +239,19 @@ func runPubSub(d *Defs, scopeKey, structKey, payload string) string {
 	for _, act := range strings.Split(actions, "/") {
 		a := strings.Split(act, "!")
 		switch a[0] {
-		case "S", "T":
-			// S: Subscribe<op>, T: Subscribe<otherOp> — one more subscription from the same subscriber object
+		case "S", "T", "SE", "TE":
+			// S: Subscribe<op>, T: Subscribe<otherOp> — one more subscription from the same subscriber object;
+			// SE / TE: the same through the other public entry point Subscribe<op>Errorable (handler returns nil)
 			sop, skey := op, structKey
-			if a[0] == "T" {
+			if a[0][0] == 'T' {
 				sop, skey = otherOp, otherKey
 			}
 			sty := &Ty{K: 'S', Name: skey}
-			mv := sub.MethodByName("Subscribe" + sop)
+			mname := "Subscribe" + sop
+			if strings.HasSuffix(a[0], "E") {
+				mname += "Errorable"
+			}
+			mv := sub.MethodByName(mname)
 			if !mv.IsValid() {
 				return "no-such-subscribe-method"
 			}
@@ -259,6 +265,9 @@ func runPubSub(d *Defs, scopeKey, structKey, payload string) string {
 			handler := reflect.MakeFunc(ht, func(args []reflect.Value) []reflect.Value {
 				fctx := args[0].Interface().(frugal.FContext)
 				calls = append(calls, strconv.Itoa(idx)+":"+dump(d, args[1], sty)+"@"+hexPairs(fctx.RequestHeaders(), "_opid"))
+				if ht.NumOut() == 1 { // Errorable handler: func(frugal.FContext, *T) error
+					return []reflect.Value{reflect.Zero(ht.Out(0))}
+				}
 				return nil
 			})
 			var in []reflect.Value
